@@ -15,7 +15,7 @@ From Coq Require Import ZArith Bool List.
 From Ice Require Import Model.AgentTypes Model.AgentCore Gen.Consts Gen.Lifecycle
      Proofs.AgentFrame Proofs.AgentC02 Proofs.AgentC03 Proofs.AgentC03Sel Proofs.AgentC20 Proofs.AgentC06 Proofs.AgentRem
      Proofs.AgentEnds Proofs.AgentSelProv.
-From Ice Require Import Proofs.AgentEnds Proofs.AgentSingleNom.
+From Ice Require Import Proofs.AgentC06 Proofs.AgentRem Proofs.AgentEnds Proofs.AgentSingleNom Proofs.AgentNomInv.
 From Ice Require Import Proofs.AgentGenRules.
 Import ListNotations.
 Local Open Scope Z_scope.
@@ -201,6 +201,68 @@ Module C03_example_single_nomination.
     = ([(1, hi, 3); (1, hi, 4)], Some 1).
   Proof. vm_compute. reflexivity. Qed.
 End C03_example_single_nomination.
+
+(* ---- single nomination across supersession (Proofs/AgentNomInv.v) -------------------------------------------------------
+   In every state of every history the recorded nominated pair agrees with the checklist pair of the same identifier
+   (same local candidate, same remote address). *)
+Theorem C03_nominated_record_agrees_with_checklist : forall cfg lu lp ops, NomInv (runs cfg (init lu lp) ops).
+Proof. exact nominated_record_agrees_with_checklist. Qed.
+Print Assumptions C03_nominated_record_agrees_with_checklist.
+
+(* With that invariant the exception for superseding AddRemoteCandidate calls disappears: from every state with consistent
+   bookkeeping (identifiers unique, remote candidates / pairs consistent, record agreeing with the checklist -- all
+   invariants of admissible histories), every operation other than a selector restart or an application renomination
+   keeps the recorded pair's identifier, socket and remote address and sends USE-CANDIDATE only on it *)
+Theorem C03_single_nomination_step_adm : forall cfg s o,
+  InvU s -> NomInv s -> Rc s ->
+  single_rel (restarts_or_renominates s o) s (snd (step cfg s o)) (fst (step cfg s o)).
+Proof. exact step_single_nomination_adm. Qed.
+Print Assumptions C03_single_nomination_step_adm.
+
+Theorem C03_use_candidate_requests_share_one_pair_adm : forall cfg ops s lh1 dst1 m1 lh2 dst2 m2,
+  InvU s -> Rc s -> NomInv s -> ops_ok cfg s ops -> calm cfg s ops ->
+  In (OSend lh1 dst1 m1) (trace cfg s ops) -> m_class m1 = 0 -> m_use m1 = true ->
+  In (OSend lh2 dst2 m2) (trace cfg s ops) -> m_class m2 = 0 -> m_use m2 = true ->
+  lh1 = lh2 /\ dst1 = dst2.
+Proof. exact use_candidate_requests_share_one_pair_adm. Qed.
+Print Assumptions C03_use_candidate_requests_share_one_pair_adm.
+
+Module C03_example_supersession.
+  Definition cfg := mkConfig false 5 7 5000000000 false 25000000000 0 0 0 0 0 [] true false 1.
+  Definition l := mkCand 1 1 1 (mkAddr false 167772161 5000) 0 2130706431 1 None.
+  Definition hi := mkAddr false 3232235777 6000.
+  Definition rhi := mkCand 2 1 1 hi 0 2130706431 1 None.
+  Definition req tx := InStun 1 hi (mkMsg 0 1 tx (Some (1, 3)) (Some 1) false (Some (false, 9)) (Some 1845501695) None None None).
+  Definition resp tx := InStun 1 hi (mkMsg 2 1 tx None (Some 4) false None None None None None).
+  Definition setup := [AddLocal l; Start true 3 4].
+  Definition s := runs cfg (init 1 1) setup.
+  Definition ops := [req 2000001; Tick; resp 1; resp 2; Tick; AddRemote rhi; Advance 200000000; Tick].
+  Definition uses := filter (fun o => match o with OSend _ _ m => (m_class m =? 0) && m_use m | _ => false end) (trace cfg s ops).
+  Example hypotheses_hold : InvU s /\ Rc s /\ NomInv s /\ ops_ok cfg s ops /\ calm cfg s ops.
+  Proof.
+    assert (Hs : ops_ok cfg (init 1 1) setup) by (cbn; auto).
+    destruct (runs_E cfg setup (init 1 1) (InvU_init 1 1) (Rc_init 1 1) Hs) as [_ [HU HR]].
+    split; [exact HU|]. split; [exact HR|]. split; [exact (nominated_record_agrees_with_checklist cfg 1 1 setup)|]. split.
+    - unfold ops, req, resp, rhi. cbn [ops_ok op_ok]. repeat split;
+        try (intros l0 El; vm_compute in El; injection El as <-; reflexivity);
+        try (vm_compute; intros H; repeat (destruct H as [H|H]; [discriminate H|]); exact H);
+        try (vm_compute; reflexivity).
+    - unfold ops, req, resp, rhi. cbn [calm restarts_or_renominates]. repeat split;
+        match goal with
+        | |- ~ False => intros []
+        | |- _ => intros [tb H]; vm_compute in H; discriminate H
+        end.
+  Qed.
+  (* a peer-reflexive remote is learnt from a request, its pair validated and nominated (transaction 2); the signalled
+     candidate then supersedes it (the record is rebuilt: remote type 3 -> 1); the repeated nomination (transaction 3)
+     still goes from socket 1 to the same address *)
+  Example nomination_survives_supersession :
+    (map (fun o => match o with OSend lh dst m => (lh, dst, m_tx m) | _ => (0, hi, 0) end) uses,
+     map (fun n => option_map (fun np => (p_id np, c_typ (p_rem np))) (s_nominated (runs cfg s (firstn n ops)))) [5; 6; 8]%nat,
+     map c_typ (s_remotes (runs cfg s ops)))
+    = ([(1, hi, 2); (1, hi, 3)], [Some (1, 3); Some (1, 1); Some (1, 1)], [1]).
+  Proof. vm_compute. reflexivity. Qed.
+End C03_example_supersession.
 
 (* ---- decision functions the model takes from the code (regenerated from /repo on every run), pinned ------------------ *)
 Theorem C03_nominatable_rule : forall cfg s c,
